@@ -15,6 +15,7 @@ import (
 	"verif/ekit"
 	"verif/seqx/wsgen"
 	"verif/track"
+	"verif/vkit"
 	"verif/vsched"
 	"verif/vshim/vsys"
 )
@@ -44,13 +45,24 @@ type acfg struct {
 	k       int    // socket capacity towards the peer
 	f       int    // MaxWebsocketFramePayloadSize (family d)
 	p       int
+	// a user callback that panics (nbio.Conn.execute recovers the panic of a queued job and
+	// logs it; the queue must go on with the next job)
+	panicMsg  int  // k>0: the handler of message #k-1 panics at its end (after its Close / echo, if any)
+	panicOpen bool // the OnOpen handler panics at its end (Upgrade never returns to the HTTP handler)
 }
 
 func (c acfg) name() string {
 	if c.writers > 0 {
 		return fmt.Sprintf("engine-writers %s exec=%s writers=%d F=%d K=%d end=%s", c.mode, c.exec, c.writers, c.f, c.k, c.end)
 	}
-	return fmt.Sprintf("order %s exec=%s msgs=%d frag=%v bursts=%v early=%d nowait=%v end=%s@%d echo=%v", c.mode, c.exec, c.msgs, c.frag, c.bursts, c.early, c.nowait, c.end, c.closeAt, c.echo)
+	s := fmt.Sprintf("order %s exec=%s msgs=%d frag=%v bursts=%v early=%d nowait=%v end=%s@%d echo=%v", c.mode, c.exec, c.msgs, c.frag, c.bursts, c.early, c.nowait, c.end, c.closeAt, c.echo)
+	if c.panicMsg > 0 {
+		s += fmt.Sprintf(" panic=message#%d", c.panicMsg-1)
+	}
+	if c.panicOpen {
+		s += " panic=open"
+	}
+	return s
 }
 
 const handshakeReq = "GET /ws HTTP/1.1\r\nHost: h\r\nConnection: Upgrade\r\nUpgrade: websocket\r\nSec-WebSocket-Version: 13\r\nSec-WebSocket-Key: dGhlIHNhbXBsZSBub25jZQ==\r\n\r\n"
@@ -76,6 +88,7 @@ func clientScript(c acfg) (frames [][]byte, payloads [][]byte) {
 func orderBody(c acfg) func() {
 	return func() {
 		vsys.Configure(false, false)
+		vkit.Log.TakeErrors() // lines of a preceding execution that was cut short (pruned) are not this one's
 		w := &world{}
 		tr := track.New(track.Pooled)
 		mempool.DefaultMemPool = tr
@@ -136,7 +149,24 @@ func orderBody(c acfg) func() {
 			if c.end == "hclose" && i == c.closeAt {
 				_ = conn.Close()
 			}
+			if c.panicMsg > 0 && i == c.panicMsg-1 {
+				// the callback ends here, by panicking
+				l.leave()
+				l.msgs[i].end = w.tick()
+				w.raise()
+			}
 		})
+		if c.panicOpen {
+			u.OnOpen(func(conn *websocket.Conn) {
+				l.enter("open")
+				l.openStart = append(l.openStart, w.tick())
+				vsched.Point()
+				wsc = conn // Upgrade will not return it
+				l.leave()
+				l.openEnd = append(l.openEnd, w.tick())
+				w.raise()
+			})
+		}
 
 		if c.end == "oclose" {
 			u.OnOpen(func(conn *websocket.Conn) {
@@ -225,6 +255,14 @@ func orderBody(c acfg) func() {
 
 		// ---- oracle
 		opened := upgradeRet != 0 && upgradeErr == nil
+		if c.panicOpen && len(l.openStart) > 0 {
+			// the 101 response is out and the connection is a WebSocket connection; Upgrade was
+			// left by the panic of the open handler, the HTTP handler never saw it return
+			opened = true
+			if upgradeRet != 0 {
+				w.failf("harness|OnOpen panicked, yet Upgrade returned to the HTTP handler")
+			}
+		}
 		closedNow, _ := nbc.IsClosed()
 		if (c.writers == 0 || strings.Contains(c.end, "tclose")) && !closedNow {
 			w.failf("conn-not-closed end=%s|the scenario ends the connection (%s) but the nbio connection is still open at quiescence", c.end, c.end)
@@ -232,17 +270,38 @@ func orderBody(c acfg) func() {
 		if handlerCalls > 1 {
 			w.failf("handler-twice|the HTTP handler ran %d times for one upgrade request", handlerCalls)
 		}
-		if opened && (len(l.openEnd) != 1 || l.openEnd[0] > upgradeRet) {
+		if opened && !c.panicOpen && (len(l.openEnd) != 1 || l.openEnd[0] > upgradeRet) {
 			w.failf("open-not-before-upgrade-returned|Upgrade returned at t=%d, OnOpen calls completed: %v", upgradeRet, l.openEnd)
 		}
 		if !opened && (len(l.openStart) > 0 || len(l.msgs) > 0 || len(l.closes) > 0) {
 			w.failf("callbacks-without-upgrade|Upgrade failed or never ran (err=%v), yet callbacks ran: open=%d message=%d close=%d", upgradeErr, len(l.openStart), len(l.msgs), len(l.closes))
+		}
+		if c.panicMsg > 0 || c.panicOpen {
+			// a conforming client that sent everything and then FIN: the messages behind the one
+			// whose callback panicked are in the same job queue and are not lost (nothing closes
+			// the connection before the peer's FIN has been read)
+			if c.end == "fin" && !c.nowait && c.early == 0 && w.panicsRaised > 0 && opened && len(l.msgs) < c.msgs {
+				w.failf("message-dropped-after-callback-panic|a callback panicked (recovered by nbio); of the %d messages the client sent before its FIN only %d reached OnMessage: the messages behind the panicking callback were dropped (%s)", c.msgs, len(l.msgs), c.name())
+			}
 		}
 		l.judge(payloads, opened, closedNow, c.name())
 		// a conforming client, nobody closes early: everything that was sent before the peer's
 		// FIN arrives in order; the callback part of the property says nothing about loss, so this
 		// is only a coverage counter
 		cnt := map[string]int{"messages_delivered": len(l.msgs)}
+		if c.panicMsg > 0 || c.panicOpen {
+			cnt["callback_panics"] = w.panicsRaised
+			after := len(l.msgs)
+			if c.panicMsg > 0 {
+				after = len(l.msgs) - c.panicMsg
+			}
+			if w.panicsRaised > 0 && after > 0 {
+				cnt["messages_delivered_after_a_callback_panic"] = after
+			}
+			if w.panicsRaised > 0 && len(l.closes) > 0 {
+				cnt["onclose_after_a_callback_panic"] = 1
+			}
+		}
 		if len(l.msgs) == c.msgs && c.msgs > 0 {
 			cnt["all_messages_delivered"] = 1
 		}
